@@ -21,17 +21,30 @@ Property clause → theorem
   no map is handed to code outside the scanned packages from keeper code: `C16.table_mapArgsExternal`.
   Why the shape matters: `C16.appendInOrder_order_dependent`, `C16.firstMatch_order_dependent` (the two loop shapes
   a careless edit introduces ARE order dependent on every map with two entries).
-* "regardless of … goroutine scheduling": `C16.table_goStatements`, `C16.table_selectStmts`, `C16.table_chanOps`
-* "regardless of … wall-clock time": `C16.table_wallClockUses` (⊆ reviewed test-fixture allow-list),
+  A SORT whose comparison has ties re-introduces the order of its input: every sort call in consensus code
+  (`Gen.Determinism.sortSites`) has a deterministic input order or a total comparison
+    - `C16.table_sortSites_reviewed`, `C16.table_sortSites_safe`, `C16.table_sortSites_text`
+    - `x/liquidity/amm/util.go` `SortOrders` (`sort.SliceStable` by `HasPriority`) → `C16.site_SortOrders_perm_invariant`
+      (`HasPriority` is a strict total order on distinct (kind, id): `SortOrders.hasPriority_total`), contract inhabited:
+      `C16.isSort_goSortStable`; without the tie-break it IS order dependent: `C16.sortOrders_amountOnly_order_dependent`
+  no `reflect` map iteration, no `sync.Map`: `C16.table_reflectUses`, `C16.table_syncUses`
+* "regardless of … goroutine scheduling": `C16.table_goStatements`, `C16.table_selectStmts`, `C16.table_chanOps`,
+  `C16.table_syncUses`
+* "regardless of … wall-clock time": `C16.table_wallClockUses` (⊆ reviewed test-fixture allow-list; vocabulary: time.Now,
+  Since, Until, After, AfterFunc, Tick, Sleep, NewTimer, NewTicker), `C16.table_zoneUses` (the machine's time zone),
   `C16.table_taintedCallers` (nothing else reaches those functions)
-* "regardless of process": `C16.table_randUses`, `C16.table_envUses`, `C16.table_unsafeUses`,
-  `C16.no_mutable_package_state` + `C16.table_mutablePackageState_size` (no memo / counter / cache in a package-level
-  variable: nothing survives an application instance except the stores)
-* the extractor saw the tree: `C16.table_scan_coverage`, `C16.table_spot_entries`
+* "regardless of process": `C16.table_randUses`, `C16.table_envUses` (os.… / runtime.… ⊆ one reviewed `init`),
+  `C16.table_unsafeUses`, `C16.no_mutable_package_state` + `C16.table_mutablePackageState_size` (no memo / counter / cache
+  in a package-level variable: nothing survives an application instance except the stores); floating point (formatting /
+  parsing / math) only at reviewed, pinned places: `C16.table_floatUses`, `C16.table_floatUses_size`
+* "byte-identical … transaction results": tested, not proved — harness monitor `results_equal` (tx code, data, gas, events
+  with attribute order, across 5-6 replicas), next to `replay_equal` (state, balances, app hash)
+* the extractor saw the tree: `C16.table_scan_coverage`, `C16.table_spot_entries`, `C16.table_spot_entries_vocabulary`
 
 Partial: the Go scheduler and runtime, the SDK / CometBFT / IAVL / wasm code and float arithmetic are outside the
 model; `sdkmath.Int` accumulators are unbounded in the `DistributeOrderAmountToOrders` model. The replay comparison
-(harness `TestC16`, monitor `replay_equal`) is a test.
+(harness `TestC16`, monitors `replay_equal`, `results_equal`, `site_stable`) is a test; Go's sort algorithms are trusted to be
+deterministic functions of their input.
 -/
 namespace Comdex.C16
 open Comdex.MapLoops
